@@ -313,6 +313,19 @@ def patch_locks():
                 setattr(mod, k, SchedRLock())
     if hasattr(mu, "Lock"):
         mu.Lock = SchedRLock
+    # ... and lock objects held by classes of those modules (class attributes created at class definition, and the locks of
+    # singleton instances that already exist): a thread paused by the scheduler while holding a REAL lock blocks every other
+    # thread's OS-level acquire for ever
+    import inspect as _inspect
+    for mod in (mu, sc):
+        for cls in [v for v in vars(mod).values() if _inspect.isclass(v) and v.__module__ == mod.__name__]:
+            for k, v in list(vars(cls).items()):
+                if isinstance(v, real):
+                    setattr(cls, k, SchedRLock())
+                elif k == "__instance__" and hasattr(v, "__dict__"):
+                    for ik, iv in list(vars(v).items()):
+                        if isinstance(iv, real):
+                            setattr(v, ik, SchedRLock())
 
 
 # ----------------------------------------------------------------------------- single-thread tracing / faults
